@@ -474,4 +474,77 @@ theorem inBase4_branch (d : ℕ) (X Y : ℝ) (hX0 : 0 ≤ X) (hX8 : X < 8) (hin 
         rw [this]; push_cast; ring
     simp only [this]
 
+/-- a point of base cell `b` that is neither on its north-east nor on its north-west border is in the regular case,
+    and the base cell returned is `b` itself -/
+theorem inBase_regular (d b : ℕ) (X Y : ℝ) (hb : b < 12) (hX0 : 0 ≤ X) (hX8 : X < 8)
+    (hin : InDiamond (baseX b) (baseY b) 1 X Y) (hne : X + Y ≠ baseX b + baseY b + 1)
+    (hnw : Y - X ≠ baseY b - baseX b + 1) :
+    PlaneDom X Y ∧ 3 ≤ hbI d X Y + hbJ d X Y ∧ hbI d X Y + hbJ d X Y ≤ 5 ∧ hbb d X Y = b ∧ hbs d X Y = 0 := by
+  obtain ⟨hdom, eI, eJ⟩ := inBase_branch d b X Y hb hX0 hX8 hin
+  rw [if_neg hne, Nat.add_zero] at eI
+  rw [if_neg hnw, Nat.add_zero] at eJ
+  obtain ⟨t0, t1, t2⟩ := sqOf_table b hb
+  have h4 : b / 4 ≤ 2 := by omega
+  refine ⟨hdom, by rw [eI, eJ]; omega, by rw [eI, eJ]; omega, by unfold hbb; rw [eI, eJ, t0], ?_⟩
+  unfold hbs
+  rw [eI, eJ]
+  have : ¬ ((sqOf b).1 = 4 ∧ (sqOf b).2 = 0) := by
+    rintro ⟨h1, h2⟩; rw [h1, h2] at t1 t2; split_ifs at t2 <;> omega
+  rw [if_neg this]
+
+/-- the half `X ≥ 7` of base cell 4, off its north-west border -/
+theorem inBase4_regular (d : ℕ) (X Y : ℝ) (hX0 : 0 ≤ X) (hX8 : X < 8) (hin : InDiamond 8 0 1 X Y) (hnw : Y - X ≠ -7) :
+    PlaneDom X Y ∧ 3 ≤ hbI d X Y + hbJ d X Y ∧ hbI d X Y + hbJ d X Y ≤ 5 ∧ hbb d X Y = 4 ∧ hbs d X Y = 8 := by
+  obtain ⟨hdom, eI, eJ⟩ := inBase4_branch d X Y hX0 hX8 hin
+  rw [if_neg hnw] at eJ
+  refine ⟨hdom, by omega, by omega, by unfold hbb; rw [eI, eJ]; decide, ?_⟩
+  unfold hbs; rw [eI, eJ]; simp
+
+/-! ## the special branches `k = −1`, `k = −2` (finding F11) -/
+
+theorem depth0Bits_km1 (d fuel I J : ℕ) (ij : ℕ × ℕ) (xy : ℝ × ℝ) (h : I + J = 6) :
+    depth0Bits (α := ℝ) d (fuel + 1) I J ij xy =
+      if xy.2 - (ij.2 : ℝ) < xy.1 - (ij.1 : ℝ) then some (((((I + 255) % 256) &&& 3) <<< (d <<< 1)) ||| Layer.yMask d)
+      else some (((((I + 2) % 256) &&& 3) <<< (d <<< 1)) ||| Layer.xMask d) := by
+  unfold depth0Bits
+  have hm : (I + J) % 256 = 6 := by omega
+  simp only [hm, r_gt', r_ofNat]
+  norm_num
+
+theorem depth0Bits_km2 (d fuel I J : ℕ) (ij : ℕ × ℕ) (xy : ℝ × ℝ) (h : I + J = 7) :
+    depth0Bits (α := ℝ) d (fuel + 1) I J ij xy =
+      if I < 2 then none else some (((I - 2) <<< (d <<< 1)) ||| Layer.xyMask d) := by
+  unfold depth0Bits
+  have hm : (I + J) % 256 = 7 := by omega
+  simp only [hm]
+  norm_num
+
+/-- value returned in the branch `k = −1` (`I + J = 6`), any configuration -/
+theorem hb_hash_km1 (cfg : Cfg) (d : ℕ) (c : ZocClass) (X Y : ℝ) (hz : Layer.zoc cfg d = some c) (hd : d ≤ 29)
+    (h : PlaneDom X Y) (h6 : hbI d X Y + hbJ d X Y = 6) :
+    hashBack (α := ℝ) cfg d (X, Y) =
+      some ((if hbdy d X Y < hbdx d X Y then ((((hbI d X Y + 255) % 256) &&& 3) <<< (d <<< 1)) ||| Layer.yMask d
+              else ((((hbI d X Y + 2) % 256) &&& 3) <<< (d <<< 1)) ||| Layer.xMask d)
+            ||| Layer.ij2h cfg c (hbi d X Y) (hbj d X Y), hbdx d X Y, hbdy d X Y) := by
+  obtain ⟨hu6, hv6⟩ := uv_ranges d X Y h.hX0 h.hX8 h.hY1 h.hY2
+  rw [hashBack_real cfg d c X Y hz hd h.hX0 (h.u0 d) (h.v0 d) hu6 hv6]
+  have := depth0Bits_km1 d 2 (hbI d X Y) (hbJ d X Y) (⌊uOf d X Y⌋₊, ⌊vOf d X Y⌋₊) (uOf d X Y, vOf d X Y) h6
+  unfold hbI hbJ at this
+  rw [this]
+  unfold hbdx hbdy
+  split_ifs <;> rfl
+
+/-- value returned in the branch `k = −2` (`I + J = 7`), any configuration -/
+theorem hb_hash_km2 (cfg : Cfg) (d : ℕ) (c : ZocClass) (X Y : ℝ) (hz : Layer.zoc cfg d = some c) (hd : d ≤ 29)
+    (h : PlaneDom X Y) (h7 : hbI d X Y + hbJ d X Y = 7) (hI : 2 ≤ hbI d X Y) :
+    hashBack (α := ℝ) cfg d (X, Y) =
+      some ((((hbI d X Y - 2) <<< (d <<< 1)) ||| Layer.xyMask d) ||| Layer.ij2h cfg c (hbi d X Y) (hbj d X Y),
+            hbdx d X Y, hbdy d X Y) := by
+  obtain ⟨hu6, hv6⟩ := uv_ranges d X Y h.hX0 h.hX8 h.hY1 h.hY2
+  rw [hashBack_real cfg d c X Y hz hd h.hX0 (h.u0 d) (h.v0 d) hu6 hv6]
+  have := depth0Bits_km2 d 2 (hbI d X Y) (hbJ d X Y) (⌊uOf d X Y⌋₊, ⌊vOf d X Y⌋₊) (uOf d X Y, vOf d X Y) h7
+  unfold hbI hbJ at this
+  rw [this, if_neg (by unfold hbI at hI; omega)]
+  rfl
+
 end Hpx.CellReal
